@@ -183,44 +183,38 @@ def r3(ctx):
     fs = f.body("<store::FilterKind as std::str::FromStr>::from_str")
     ctx.touch(d, fs)
     fadt = [v["name"] for v in f.adt("store::FilterKind")["variants"]]
-    disp = {}
-    enc_disp = set()
-    for p in P.explore(d):
-        vk = [v for k, v in p.decisions if k[0] == "discr" and "self" in k[1]]
-        if not vk:
-            continue
-        variant = fadt[vk[0]] if isinstance(vk[0], int) else "?"
-        consts = [c for c in _str_consts_on_path(d, p)]
-        tags = [c for c in consts if c in ("prefix", "exact") or (c.isalnum() and len(c) < 12)]
-        disp.setdefault(variant, set()).update(tags[:1])
-        enc_disp.update(tags[1:2])
-    kind_tags = set()
-    for v in disp.values():
-        kind_tags |= v
-    parse = {}
-    enc_parse = set()
-    for p in P.explore(fs, loop_bound=1):
-        if p.ret[0] == "variant" and p.ret[1] == "Ok" and p.ret[2] and p.ret[2][0] == "variant":
-            variant = p.ret[2][1]
-            for k, v in p.decisions:
-                kk, neg = k, False
-                while kk[0] == "not":
-                    kk, neg = kk[1], not neg
-                if kk[0] == "cmp" and kk[1] in ("==", "!="):
-                    truth = (bool(v) != neg) if kk[1] == "==" else (bool(v) == neg)
-                    if not truth:
-                        continue
-                    for side in (kk[2], kk[3]):
-                        if side.startswith("const:"):
-                            tag = side[len("const:"):].strip('"')
-                            if tag in kind_tags:
-                                parse.setdefault(variant, set()).add(tag)
-                            elif tag.isalnum() and len(tag) < 12:
-                                enc_parse.add(tag)
+    # tag agreement, read off the evaluated Display output: the kind tag and the encoding tag Display writes for a variant are
+    # mapped back to that variant / that payload by FromStr (both evaluated on concrete strings; no pattern of the source is matched)
+    from . import feval as E, strs
+
+    def show(var, payload):
+        out = []
+        ret, hp, ev = E.run(f, d.path, [E.href("self"), E.href("fmt")], {"self": E.variant(f, "store::FilterKind", var, E.Tok(payload)), "fmt": E.Tok("formatter")}, strs.make_oracle(f, out))
+        return "".join(out)
+
+    def parse_text(text):
+        ret2, hp, ev = E.run(f, fs.path, [strs.S(text)], {}, strs.make_oracle(f, []))
+        return E.describe(ret2, f)
+    kind_tag = {}
+    enc_tags = {}
     for v in fadt:
-        ctx.check(disp.get(v) and disp.get(v) == parse.get(v), "C15.R3", d.path, "tag-agreement.%s" % v,
-                  "Display writes %s for %s, FromStr maps %s to it" % (sorted(disp.get(v, [])), v, sorted(parse.get(v, []))), d.sp)
-    ctx.check(enc_disp and enc_disp == enc_parse, "C15.R3", d.path, "encoding-tag-agreement", "Display encodings %s, FromStr encodings %s" % (sorted(enc_disp), sorted(enc_parse)), d.sp)
+        try:
+            rows = {}
+            for payload in ("str:abc", "bytes:ff00"):
+                text = show(v, payload)
+                parts = text.split(":", 2)
+                rows[payload] = (text, parse_text(text))
+                if len(parts) == 3:
+                    kind_tag.setdefault(v, set()).add(parts[0])
+                    enc_tags.setdefault(payload.split(":")[0], set()).add(parts[1])
+            ok = all(got == "Ok(%s(%s))" % (v, pl) for pl, (text, got) in rows.items()) and len(kind_tag.get(v, ())) == 1
+            det = "Display writes %s; FromStr maps them to %s" % ([t for t, _ in rows.values()], [g for _, g in rows.values()])
+        except E.Unsupported as e:
+            ok, det = False, "UNSUPPORTED-FORM: %s" % e
+        ctx.check(ok, "C15.R3", d.path, "tag-agreement.%s" % v, det, d.sp)
+    distinct = len({next(iter(t)) for t in kind_tag.values() if t}) == len(fadt)
+    ctx.check(distinct and all(len(t) == 1 for t in enc_tags.values()) and len({next(iter(t)) for t in enc_tags.values()}) == len(enc_tags) == 2, "C15.R3", d.path, "encoding-tag-agreement",
+              "kind tags %s, encoding tags %s (one tag per variant / per encoding, all different, each parsed back - see tag-agreement)" % ({k: sorted(v) for k, v in kind_tag.items()}, {k: sorted(v) for k, v in enc_tags.items()}), d.sp)
     # Display and FromStr evaluated (K6' with concrete strings) and composed: parse(display(x)) == x on sample filters
     # (payloads with ':' inside, empty, non-UTF-8), malformed texts are errors
     from . import feval as E, strs
